@@ -65,11 +65,12 @@ def run(rep, work, rng, tier):
         cases.append(('ld%d' % i, lines)); kinds['reload-then-edit'] = kinds.get('reload-then-edit', 0) + 1
     (cres, cown, _), (mres, mown, _) = harness.run_both(cases, work, model_env={'EZ_INV': '1'}, shared=shared)
     # the Coq predicate (extracted) evaluated on every model snapshot: lines "I b0..b9"; strip them before comparing
-    coq_reports = {}
+    coq_reports = {}; typed = {}
     for cid in list(mres):
         ml, ms = mres[cid]; keep = []; k = 0
         for l in ml:
             if l.startswith('I '): coq_reports.setdefault(cid, []).append(l[2:].split(' '))
+            elif l.startswith('T '): typed[l[2:]] = typed.get(l[2:], 0) + 1
             else: keep.append(l)
         mres[cid] = (keep, ms)
     (c, _), (m, _), nd = common.correspondence(rep, work, cases, select=sel, project=proj, label='shape views after every call',
@@ -110,4 +111,4 @@ def run(rep, work, rng, tier):
                     break
     rep.coverage.update(dict(evaluations=sum(kinds.values()), distinct_nontrivial=len(set(l for _, ls in cases for l in ls if not l.startswith('snap'))),
         rule='conforming histories (declare before/after data, either rate first, analog-only, points-only, none, non-integer ratios, replacements, extensions, point/channel columns) with a snapshot after EVERY call; the agreement predicate is evaluated on every intermediate snapshot of the C++; distinct = distinct operation lines',
-        samples=[cases[-1][1][:12]], op_kinds=kinds, snapshots_checked=states, coq_predicate_false_on=coq_false, mirror_mismatches=mirror_mismatch, failing_components=comps, disagreements=nd, oracle_failures=bad))
+        samples=[cases[-1][1][:12]], op_kinds=kinds, snapshots_checked=states, coq_predicate_false_on=coq_false, mirror_mismatches=mirror_mismatch, snapshots_with_well_typed_mandatory_parameters=typed.get('1', 0), snapshots_without=typed.get('0', 0), failing_components=comps, disagreements=nd, oracle_failures=bad))
